@@ -10,8 +10,9 @@ C05 - inheritance is computed as Python computes it.  Decides consumers and the 
   R05.7 an empty docstring ends the docstring search; sibling branches do not share the cycle-detection path
   R05.8 the class page drops the first inheritance chain only when it is the class itself
   R05.10 class-body scoping: a name a class does not bind is looked up outside ALL enclosing classes; "overridden in" lists a subclass once
+  R05.11 C3 shape clause: after a head is taken, mro._merge restarts the search at the first list
   R05.9 the documentation sources of a member are searched along the whole linearisation of ITS class (no exit, no hand-over to a base member's own search)
-Does not decide: that mro._merge is C3 (an algorithmic equality with type.__mro__).
+Does not decide: that mro._merge is C3 as a whole (an algorithmic equality with type.__mro__).
 """
 from __future__ import annotations
 
@@ -211,7 +212,49 @@ def run(repo: Repo, chk: Check, thorough: bool = False) -> None:
            'if isinstance(base_node, ast.Subscript): name_node = base_node.value' if ok else
            f'the subscript is only stripped under `{norm(strip[0].test)[:70] if strip else "?"}`: other generic bases (e.g. mod.Base[int]) stay '
            'unresolvable strings and vanish from the MRO', vc.loc)
-    chk.require('R05.4', 3)
+    # Python drops an explicit `Generic[T]` base when ANY later base is a subscripted generic (typing._GenericAlias.__mro_entries__: `for b in bases[i+1:]`).
+    # The branch of compute_mro.localbases that leaves `Generic` out has to look at all the bases that follow, not at a fixed neighbour
+    lb = repo.func(f'{M}.compute_mro.localbases')
+    gtests = [n for n in lb.walk() if isinstance(n, ast.If) and any(isinstance(c, ast.Constant) and c.value == 'typing.Generic' for c in ast.walk(n.test))]
+    if not gtests:
+        raise AnalysisError('R05.4: the branch of compute_mro.localbases that drops an explicit Generic[...] base was not found')
+    for n in gtests:
+        quant = [g for g in ast.walk(n.test) if isinstance(g, (ast.GeneratorExp, ast.ListComp, ast.SetComp)) and
+                 any(isinstance(x, ast.Subscript) and isinstance(x.slice, ast.Slice) and x.slice.upper is None and x.slice.lower is not None
+                     for gen in g.generators for x in ast.walk(gen.iter))]
+        fixed = [x for x in ast.walk(n.test) if isinstance(x, ast.Subscript) and not isinstance(x.slice, ast.Slice) and isinstance(x.slice, ast.BinOp)]
+        if not quant and not fixed:
+            raise AnalysisError('R05.4: the test that drops Generic[...] reads the later bases in an unrecognised way')
+        chk.ob('R05.4', f'{lb.qn} :: Generic[...] is dropped when ANY later base is a subscripted generic', bool(quant),
+               'quantifies over the bases after it (rawbases[i+1:])' if quant else
+               f'the test only looks at `{norm(fixed[0])[:40]}`: `class X(Generic[T], P, A[T])` keeps Generic in front although Python removes it - pydoctor reports an '
+               'inconsistent hierarchy for a class CPython accepts and falls back to a depth-first order (X.find() and the inherited docstrings come from the wrong class)',
+               repo.loc(lb.mod, n))
+    chk.require('R05.4', 4)
+
+    # ------------------------------------------------------------------ R05.11  one shape clause of C3 (the equality with type.__mro__ stays undecided)
+    # C3 takes, at every step, the FIRST list whose head is in no tail: after a head has been taken the search starts again at the first list.  In _merge no
+    # second element may be appended to the result before the outermost loop has come round (a run of heads taken from one list swaps classes)
+    mg_ = repo.func('pydoctor.mro._merge')
+    cfm = CFG(mg_)
+    outer = [n for n in mg_.body() if isinstance(n, (ast.While, ast.For))]
+    resv = {n.value.id for n in mg_.walk() if isinstance(n, ast.Return) and isinstance(n.value, ast.Name)}
+    takes = [cfm.stmt_of(c) for c in calls_in(mg_) if call_name(c) in ('append', 'extend') and isinstance(c.func, ast.Attribute) and isinstance(c.func.value, ast.Name) and
+             c.func.value.id in resv]
+    if len(outer) != 1 or not takes:
+        raise AnalysisError('R05.11: mro._merge: the outer loop / the statement that appends to the result was not found')
+    for a in takes:
+        again = False
+        for (t, l, k) in cfm.succ.get(id(a), []):
+            if k == 'exc':
+                continue
+            r = cfm.reachable(t, avoid_nodes=[outer[0]], no_exc=True)
+            if any(id(b) in r for b in takes):
+                again = True
+        chk.ob('R05.11', 'pydoctor.mro._merge :: after a head is taken the search restarts at the first list', not again,
+               'every path from one append to the next passes the head of the outer loop' if not again else
+               'a second head can be appended without rescanning from the first list (a run of candidates taken from one linearisation): `E(C, D, A)` with C(A), D(B) gives '
+               'E C D B A where Python gives E C D A B - still a valid order, so nothing is reported, but find()/docsources() and inherited docstrings differ', repo.loc(mg_.mod, a))
 
     # ------------------------------------------------------------------ R05.5
     # Python's attribute lookup does not know about documentation privacy: an override masks the inherited member whether or not it is shown
